@@ -119,6 +119,8 @@ struct FnOut {
     has_contract: bool,
     external_body: bool,
     props: Vec<String>,
+    n_loops: usize,
+    dropped_loops: Vec<String>,
     clauses: Vec<ClauseOut>,
     #[serde(skip)]
     orig_norm: String,
@@ -400,6 +402,20 @@ impl<'a> VisitMut for Rewriter<'a> {
         visit_mut::visit_path_mut(self, p);
     }
 
+    fn visit_expr_path_mut(&mut self, ep: &mut syn::ExprPath) {
+        // `<T as a::b::Trait>::f`: keep the qualified-self position consistent when the trait path is shortened
+        if let Some(q) = &mut ep.qself {
+            let before = ep.path.segments.len();
+            self.map_path(&mut ep.path);
+            let after = ep.path.segments.len();
+            if after < before && q.position >= before - after { q.position -= before - after; }
+            self.visit_type_mut(&mut q.ty);
+            for seg in ep.path.segments.iter_mut() { self.visit_path_arguments_mut(&mut seg.arguments); }
+            return;
+        }
+        visit_mut::visit_expr_path_mut(self, ep);
+    }
+
     fn visit_fields_named_mut(&mut self, f: &mut syn::FieldsNamed) {
         let cfg = self.cfg;
         let n = f.named.len();
@@ -471,6 +487,11 @@ impl<'a> VisitMut for Rewriter<'a> {
             };
             if !keep {
                 self.rules.insert("R3".into());
+                continue;
+            }
+            // `use` declarations inside a body are dropped: names are resolved by the unit prelude (R11)
+            if let syn::Stmt::Item(syn::Item::Use(_)) = &st {
+                self.rules.insert("R11".into());
                 continue;
             }
             // R2 on statement-level logging macros
@@ -650,7 +671,7 @@ impl<'a> VisitMut for Rewriter<'a> {
         if self.desugar_try {
             if let syn::Expr::Try(t) = e {
                 let inner = (*t.expr).clone();
-                *e = syn::parse_quote!(match #inner { Ok(vx_ok) => vx_ok, Err(vx_err) => return Err(From::from(vx_err)) });
+                *e = syn::parse_quote!(match (#inner) { Ok(vx_ok) => vx_ok, Err(vx_err) => return Err(From::from(vx_err)) });
                 self.rules.insert("R15".into());
             }
         }
@@ -927,6 +948,7 @@ fn process_fn_common(
     external_body: bool,
 ) -> FnOut {
     let contract = contracts.fns.get(key);
+    let mut dropped_loops: Vec<String> = vec![];
     let mut rules: BTreeSet<String> = rw_rules.clone();
     let mut an = Annotator {
         fn_idx,
@@ -988,7 +1010,9 @@ fn process_fn_common(
     if let Some(c) = contract {
         for k in c.loops.keys() {
             if !an.used_loops.contains(k) && !external_body {
-                die(format!("lost anchor: {} has no loop #{}", key, k));
+                // the loop the contract speaks about is gone: its invariants cannot be mis-attached, so they are simply not
+                // emitted and the function's pre/postconditions (and the callees' guard preconditions) decide.  Recorded.
+                dropped_loops.push(format!("{}: loop #{} no longer exists (its invariants were not attached)", key, k));
             }
         }
         for k in c.closures.keys() {
@@ -1016,6 +1040,8 @@ fn process_fn_common(
         has_contract: contract.is_some(),
         external_body,
         props: contract.map(|c| c.props.clone()).unwrap_or_default(),
+        n_loops: an.loop_counter,
+        dropped_loops,
         ..Default::default()
     }
 }
